@@ -32,7 +32,9 @@ FIELDS = ["final_strategies", "reachability_strategies", "rewards", "probabiliti
 def make_pool(rng, size):
     """-> list of (name, kind, solver-style description)."""
     pool = []
-    names = ["g%d" % i for i in range(20)] + ["robot_1_a", "Game_B2", "x", "a_b_c_9"]
+    # names that are prefixes of each other or end in characters of "_no_prune" are legal and hostile to string surgery on keys
+    names = ["g%d" % i for i in range(12)] + ["robot_1_a", "Game_B2", "x", "a_b_c_9", "broken", "no_route", "gam", "game_one",
+                                               "open", "prune_no", "e", "n_o", "game", "game_o", "run", "u_p"]
     rng.shuffle(names)
     for i in range(size):
         r = rng.random()
@@ -62,6 +64,12 @@ def make_pool(rng, size):
             eds = list(c09.edits(base))
             rule, pc, g = rng.choice(eds)
             pool.append((names[i], "malformed:" + rule, g))
+    # a game may carry its own prune_states key (it is a constructor parameter); the batch run must still do both modes
+    for i, (n_, k_, g_) in enumerate(pool):
+        if not k_.startswith("malformed") and rng.random() < 0.25:
+            g2 = dict(g_)
+            g2["prune_states"] = rng.choice([True, False])
+            pool[i] = (n_, k_, g2)
     # siblings: games that share their structure with another game of the pool (same transition lists but other final
     # states / rewards, or an identical copy under another name) - anything cached across games by structure shows here
     wf = [(n, k, g) for n, k, g in pool if not k.startswith("malformed")]
@@ -173,10 +181,19 @@ def expected_entries(name, solo):
     return {name: failed(p, "Error while solving the game: " + p["err"]), name + "_no_prune": failed(n, "Game not solved")}
 
 
-def check_batch(order, pool_by_name, solo):
+def check_batch(order, pool_by_name, solo, twice=False):
     cr = monitors.mods()["conditionalrewards"]
     d = {name: copy.deepcopy(pool_by_name[name][1]) for name in order}
     before = copy.deepcopy(d)
+    if twice:
+        # the very same dict object is run a second time (it now carries the prune_states keys the first run added)
+        try:
+            with monitors.budget(2 * 10 ** 8):
+                cr.run_games(d)
+        except BaseException:    # noqa - judged on the second run below
+            pass
+        finally:
+            monitors.MON.metering = False
     problems = []
     try:
         with monitors.budget(2 * 10 ** 8):
@@ -211,7 +228,9 @@ def check_batch(order, pool_by_name, solo):
     for name in order:
         g = dict(d[name])
         g.pop("prune_states", None)
-        if g != before[name]:
+        b = dict(before[name])
+        b.pop("prune_states", None)
+        if g != b:
             problems.append({"entry": name, "problem": "input game changed by the batch run"})
     return problems
 
@@ -262,7 +281,7 @@ def decide(idx, seed, tier):
             problems.append({"order": o, "kinds": [kinds[n] for n in o], "problems": pr[:3]})
     if orders:
         o = orders[0]
-        pr = check_batch(o, by_name, solo)          # same dict a second time
+        pr = check_batch(o, by_name, solo, twice=True)          # same dict object a second time
         res["stats"]["run_twice"] += 1
         if pr:
             problems.append({"order": o, "second_run": True, "problems": pr[:3]})
